@@ -254,8 +254,13 @@ def run(ctx):
             r2 = L.run_case(recs[i]["scenario"], casedir, ks, via="script")
             script_recs.append((i, r2))
         t_script = time.time() - t_start - t_main
+        # command-line histories whose exit status is fixed by construction (harness/c18hist.py)
+        from harness import c18hist
+        hist_n, hist_bad = c18hist.run(ctx, ks)
     finally:
         ks.close()
+    for what, rp in hist_bad[:4]:
+        ctx.violation("command-line history: " + what[:500], rp)
 
     # ---- verdicts
     reported = 0
@@ -337,7 +342,9 @@ def run(ctx):
             "argparse and interpreter exit paths are exercised, not modelled; in-process status = SystemExit.code "
             "(None->0, non-int->1, escaping exception->1), cross-checked against real processes on the sample",
             "gpg binary and the scratch copy of the harness keyring"],
-        "evaluations": len(recs) + len(script_recs),
+        "evaluations": len(recs) + len(script_recs) + hist_n,
+        "histories_fixed_by_construction": {"cases": hist_n, "problems": len(hist_bad),
+                                            "what": "products with carriage returns through in-toto-run / match-products / verify; one key's [valid, stale] signatures through in-toto-sign --append / --verify / in-toto-verify"},
         "distinct_nontrivial": len(combos_nt),
         "distinct_combinations_total": len(combos_all),
         "rule": "cases = (builder, params, seed) enumerated over scenario class x key-argument form x metadata format per tool "
@@ -369,6 +376,20 @@ def run(ctx):
 
 def replay(ctx, obj):
     r = obj["replay"]
+    if r.get("kind") == "c18hist":
+        from harness import c18hist
+        ks = L.KeyStore(ctx.work)
+        try:
+            _, bad = c18hist.run(ctx, ks)
+        finally:
+            ks.close()
+        for what, _rp in bad:
+            print("  -> " + what[:400])
+        if bad:
+            print("VIOLATION property=C18 replay=%s" % obj.get("rerun", "").split()[-1])
+            return 1
+        print("agree")
+        return 0
     if "scenario" not in r:
         print("no input in this replay file (broken obligation): rerun ./check C18")
         return 1
